@@ -23,7 +23,7 @@ use std::{
     io,
     net::{IpAddr, Ipv4Addr, Ipv6Addr, SocketAddr},
     sync::{
-        atomic::{AtomicU64, Ordering},
+        atomic::{AtomicBool, AtomicU64, Ordering},
         Arc, Condvar, Mutex, MutexGuard,
     },
     time::Duration,
@@ -124,6 +124,11 @@ pub struct SimInner {
 }
 
 pub struct SimCtx {
+    /// Mirrors of `parked` / `permits` / "ended or kill" for a short spin before blocking
+    /// (saves two context switches per loop iteration).
+    parked_hint: AtomicBool,
+    permits_hint: AtomicU64,
+    stop_hint: AtomicBool,
     pub clock: Arc<AtomicU64>,
     pub seed: u64,
     /// Chosen by the harness to recognise the daemon, e.g. in a panic hook.
@@ -140,6 +145,9 @@ impl SimCtx {
         ifaces: Vec<if_addrs::Interface>,
     ) -> Arc<Self> {
         Arc::new(Self {
+            parked_hint: AtomicBool::new(false),
+            permits_hint: AtomicU64::new(0),
+            stop_hint: AtomicBool::new(false),
             clock,
             seed,
             tag,
@@ -186,13 +194,41 @@ impl SimCtx {
         let mut g = self.lock();
         g.permits += n;
         g.parked = false;
+        self.parked_hint.store(false, Ordering::SeqCst);
+        self.permits_hint.store(g.permits, Ordering::SeqCst);
         drop(g);
         self.cv.notify_all();
+    }
+
+    /// Makes the gate unwind the daemon thread.
+    pub fn kill(&self) {
+        let mut g = self.lock();
+        g.kill = true;
+        self.stop_hint.store(true, Ordering::SeqCst);
+        drop(g);
+        self.cv.notify_all();
+    }
+
+    fn spin(&self, done: impl Fn() -> bool) {
+        let start = std::time::Instant::now();
+        let mut n = 0u32;
+        while !done() {
+            std::hint::spin_loop();
+            n += 1;
+            if n % 64 == 0 && start.elapsed() > SPIN {
+                break;
+            }
+        }
     }
 
     /// Waits until the daemon is parked with no permit left, or has ended.
     /// Returns false on timeout.
     pub fn wait_parked(&self, timeout: Duration) -> bool {
+        self.spin(|| {
+            self.stop_hint.load(Ordering::SeqCst)
+                || (self.parked_hint.load(Ordering::SeqCst)
+                    && self.permits_hint.load(Ordering::SeqCst) == 0)
+        });
         let mut g = self.lock();
         let deadline = std::time::Instant::now() + timeout;
         loop {
@@ -210,6 +246,9 @@ impl SimCtx {
         }
     }
 }
+
+/// How long either side spins before it blocks on the condition variable.
+const SPIN: Duration = Duration::from_micros(40);
 
 thread_local! {
     static CTX: RefCell<Option<Arc<SimCtx>>> = const { RefCell::new(None) };
@@ -270,6 +309,7 @@ impl Drop for ExitGuard {
                 iter,
             });
             g.parked = false;
+            ctx.stop_hint.store(true, Ordering::SeqCst);
             drop(g);
             ctx.cv.notify_all();
         }
@@ -331,7 +371,15 @@ pub(crate) fn gate(
         g.snapshot = Some(snapshot(level));
     }
     g.parked = true;
+    ctx.parked_hint.store(true, Ordering::SeqCst);
     ctx.cv.notify_all();
+    if g.permits == 0 && !g.kill {
+        drop(g);
+        ctx.spin(|| {
+            ctx.permits_hint.load(Ordering::SeqCst) > 0 || ctx.stop_hint.load(Ordering::SeqCst)
+        });
+        g = ctx.lock();
+    }
     while g.permits == 0 && !g.kill {
         g = match ctx.cv.wait(g) {
             Ok(g) => g,
@@ -344,6 +392,8 @@ pub(crate) fn gate(
     }
     g.permits -= 1;
     g.parked = false;
+    ctx.parked_hint.store(false, Ordering::SeqCst);
+    ctx.permits_hint.store(g.permits, Ordering::SeqCst);
     TICK_BUDGET.with(|b| b.set(g.step_budget));
     TICKS.with(|t| t.set(0));
     Some(Duration::ZERO)
